@@ -362,6 +362,9 @@ async def run_async(world, pspec, args, kwargs):
                     raise AssertionError("unknown op %r" % (op,))
         except cancel_exc:
             LOG("cancelled", pid=pid, gen=world.gen)
+            if pspec.get("handover"):
+                # a payload that hands its work over to a successor while it is being cancelled
+                do_adopt(world, pspec["handover"], by=pid)
             if cleanup["kind"] == "shielded" and flavour == "trio":
                 with trio.CancelScope(shield=True):
                     await trio.sleep(cleanup["dur"])
